@@ -67,8 +67,8 @@ Theorem ps_obs_dec_enc : forall la lt r rest,
   ps_obs_dec la lt (ps_obs_enc r ++ rest) = Some (r, rest).
 Proof.
   intros la lt [key proto listen tuple pkt osc] rest Hla Hlt (Hk & Hp & Hl & Ht & Hpk & Ho).
-  cbn [ob_key ob_proto ob_listen ob_tuple ob_pkt ob_osc] in *.
-  unfold ps_obs_dec, ps_obs_enc. cbn [ob_key ob_proto ob_listen ob_tuple ob_pkt ob_osc].
+  cbn [pso_key pso_proto pso_listen pso_tuple pso_pkt pso_osc] in *.
+  unfold ps_obs_dec, ps_obs_enc. cbn [pso_key pso_proto pso_listen pso_tuple pso_pkt pso_osc].
   rewrite <- !app_assoc.
   rewrite (ps_item_app PS_KEY key) by (assumption || reflexivity).
   rewrite (ps_item_app PS_PROTO proto) by (assumption || reflexivity).
@@ -94,8 +94,8 @@ Theorem ps_dyn_dec_enc : forall r rest,
   ps_dyn_wf r -> ps_dyn_dec (ps_dyn_enc r ++ rest) = Some (r, rest).
 Proof.
   intros [proto name pkt] rest (Hp & Hn & Hk).
-  cbn [dy_proto dy_name dy_pkt] in *.
-  unfold ps_dyn_dec, ps_dyn_enc. cbn [dy_proto dy_name dy_pkt].
+  cbn [psd_proto psd_name psd_pkt] in *.
+  unfold ps_dyn_dec, ps_dyn_enc. cbn [psd_proto psd_name psd_pkt].
   rewrite <- !app_assoc. unfold PS_MAX in *. pose proof (len_nonneg name) as Hn0.
   rewrite (ps_item_app PS_PROTO proto) by (assumption || reflexivity).
   rewrite (ps_item_app PS_LEN (ps_enc_size (len name))) by (apply ps_len_enc_size || reflexivity).
